@@ -101,9 +101,11 @@ Configs ==
     \cup {[model |-> "fpu", d |-> d, x |-> [k \in 1..d |-> PtsH(seed, k, d)]] : d \in 2..(IF Level = 1 THEN 4 ELSE 6), seed \in 1..3}
     \cup {[model |-> "kuramoto", d |-> d, w |-> [k \in 1..d |-> PtsH(seed, k, 1)], s |-> [k \in 1..d |-> PtsH(seed, k, 2)],
            c |-> [k \in 1..d |-> PtsH(seed + 1, k, 3)]] : d \in 2..(IF Level = 1 THEN 5 ELSE 8), seed \in 1..3}
-    \cup {[model |-> k, dim |-> dim, level |-> lv] : k \in {"cantor"}, dim \in 1..3, lv \in 1..(IF Level = 1 THEN 2 ELSE 3)}
-    \cup {[model |-> k, dim |-> dim, level |-> lv] : k \in {"multisponge", "vicsek"}, dim \in 2..3, lv \in 1..(IF Level = 1 THEN 2 ELSE 3)}
-    \cup {[model |-> "rgb", n |-> n, level |-> lv, seed |-> seed] : n \in 2..3, lv \in 1..(IF Level = 1 THEN 2 ELSE 3), seed \in 1..2}
+    \* every level whose dense tensor has at most 3^8 (quick) / 3^9 entries: the levels 4.. are where a power computed by
+    \* repeated squaring, or a loop bound, first differs from the small ones
+    \cup {c \in [model : {"cantor"}, dim : 1..3, level : 1..8] : c.dim * c.level <= (IF Level = 1 THEN 8 ELSE 9)}
+    \cup {c \in [model : {"multisponge", "vicsek"}, dim : 2..3, level : 1..4] : c.dim * c.level <= (IF Level = 1 THEN 8 ELSE 9)}
+    \cup {c \in [model : {"rgb"}, n : 2..3, level : 1..5, seed : 1..2] : c.n ^ c.level <= (IF Level = 1 THEN 27 ELSE 81)}
     \* structural checks only: the size / parameter grid is fixed here
     \cup {[model |-> "co_generator", order |-> o, cyclic |-> cy, kexp |-> ke] : o \in 2..(IF Level = 1 THEN 5 ELSE 6), cy \in BOOLEAN, ke \in {-2, 0, 4}}
     \cup {[model |-> "cascade", d |-> d] : d \in 2..(IF Level = 1 THEN 3 ELSE 4)}
